@@ -36,6 +36,16 @@ def fixed_cases():
     out.append((d, s, [[("read", 4)], [("readline", None)], []], False))
     out.append((lp.make_spec(proxy_protocol=True), b"PROXY TCP4 192.168.0.1 192.168.0.11 56324 443\r\nGET / HTTP/1.1\r\nHost: x\r\n\r\nGET /2 HTTP/1.1\r\n\r\n", [[], []], False))
     out.append((lp.make_spec(limit_request_line=10), b"GET /aaaaaaaaaaaaaaaaaaaaaaaaaaaa HTTP/1.1\r\n\r\n", [[]], False))
+    # a PROXY line against the line limit, in both directions: longer than a small limit_request_line, and very long (zero-padded
+    # ports) under the default limit - whatever the verdict, it is the same for a first read of 1 byte and of 100
+    pline = b"PROXY TCP4 192.168.0.1 192.168.0.11 56324 443\r\n"
+    rest = b"GET /p HTTP/1.1\r\nHost: x\r\n\r\nGET /2 HTTP/1.1\r\n\r\n"
+    for lim in (20, 40, 46, 47, 60):
+        out.append((lp.make_spec(proxy_protocol=True, limit_request_line=lim), pline + rest, [[], []], False))
+    for pad in (40, 60, 200):
+        long_line = b"PROXY TCP4 192.168.0.1 192.168.0.11 " + b"0" * pad + b"56324 " + b"0" * pad + b"443\r\n"
+        out.append((lp.make_spec(proxy_protocol=True), long_line + rest, [[], []], False))
+        out.append((lp.make_spec(proxy_protocol=True, limit_request_line=150), long_line + rest, [[], []], False))
     # an empty line where a request line is expected: before the first request, after a body
     out.append((d, b"\r\nGET /only HTTP/1.1\r\nHost: example\r\n\r\n", [[]], False))
     out.append((d, b"POST /form HTTP/1.1\r\nHost: example\r\nContent-Length: 7\r\n\r\na=1&b=2\r\nGET /next HTTP/1.1\r\nHost: example\r\n\r\n", [[], []], False))
